@@ -191,6 +191,15 @@ def run(cx):
         for v in bad:
             ob.fail("refuted", "rpc-layer/" + v.key.split("rpc-panic/", 1)[-1], "remote-reachable panic in the typed-RPC layer: " + str(v.msg)[:300], v.construct, v.where)
 
+    with cx.ob("C06.1d", "R-SHAPE", "untrusted header bytes are decoded by the derived serde impls of the raw header types only - no custom (de)serialisation hook runs on them (C07.4 re-evaluated)") as ob:
+        from . import c07
+        sub = cx.__class__("C06", prog, cx.tier, cx.config, cx.tree, repo=cx.repo)
+        c07.run(sub)
+        w = [x for x in sub.obs if x.oid == "C07.4"]
+        ob.count(sum(x.evals for x in w))
+        bad = [v for x in w for v in x.violations if "serde-" in v.key]
+        ob.require(len(w) == 1 and not bad, "decode/no-custom-serde-hook", "code outside the analysed decode path runs on bytes a peer controls: " + "; ".join(str(v.msg) for v in bad)[:300], "anemo::types::request::RawRequestHeader")
+
     with cx.ob("C06.1b", "R-PANIC", "no panic-capable construct executes inside a peer-map / known-peers critical section (discharges lock-poisoning unwraps)") as ob:
         inner = [p for p in prog.bodies if p.startswith(f"{CM}::ActivePeersInner::") and "__CALLSITE" not in p and "::{" not in p]
         ob.floor(inner, 7, "ActivePeersInner methods")          # (the two one-line accessors contains/len are always inlined)
